@@ -37,6 +37,7 @@ type c11Cfg struct {
 	Ap      map[string]bool `json:"ap"`      // ADD-PATH (send) negotiated per family
 	Ext     bool            `json:"ext"`     // Extended Message negotiated
 	Collide bool            `json:"collide"` // force one attribute hash for all paths (hash collision)
+	As2     bool            `json:"as2"`     // peer without 4-octet AS capability (fsm.twoByteAsTrans)
 }
 
 type c11Behaviour struct {
@@ -66,6 +67,7 @@ type c11Msg struct {
 	I    int     `json:"i"`
 	Sent bool    `json:"sent"` // Serialize succeeded => written to the session
 	Len  int     `json:"len"`  // 19 + len(serialised body): REAL octets
+	Plen int     `json:"packed"` // the same before send() rewrote the attributes for a 2-octet-AS peer
 	Wd   [][]any `json:"wd"`   // withdrawn keys  [fam,pfx,plen,wire-id]
 	Ann  []c11Grp `json:"ann"` // announced keys, grouped by the next hop(s) they are announced with
 	Dig  string  `json:"dig"`  // digest of the message's attribute set
@@ -241,7 +243,7 @@ func c11Digest(attrs []bgp.PathAttributeInterface) string {
 func c11Attrs(c c11Change) []bgp.PathAttributeInterface {
 	attrs := []bgp.PathAttributeInterface{
 		bgp.NewPathAttributeOrigin(0),
-		bgp.NewPathAttributeAsPath([]bgp.AsPathParamInterface{bgp.NewAs4PathParam(bgp.BGP_ASPATH_ATTR_TYPE_SEQ, []uint32{65001})}),
+		bgp.NewPathAttributeAsPath([]bgp.AsPathParamInterface{bgp.NewAs4PathParam(bgp.BGP_ASPATH_ATTR_TYPE_SEQ, []uint32{c11FirstAS(c.Attrs)})}),
 	}
 	nhs := c11NextHops[c.Nh]
 	if nhs == nil {
@@ -287,6 +289,22 @@ func c11Attrs(c c11Change) []bgp.PathAttributeInterface {
 	return attrs
 }
 
+// odd attribute-set ids have a 4-octet AS in front (needs AS4_PATH towards a 2-octet-AS peer)
+func c11FirstAS(attrs int) uint32 {
+	if attrs%2 == 1 {
+		return 4200000001
+	}
+	return 65001
+}
+
+// what send() of fsm.go does to an UPDATE for a peer without the 4-octet AS capability
+func c11ForSession(u *bgp.BGPUpdate, as2 bool) {
+	if as2 {
+		UpdatePathAttrs2ByteAs(u)
+		UpdatePathAggregator2ByteAs(u)
+	}
+}
+
 func c11AttrBytes(attrs []bgp.PathAttributeInterface) int {
 	n := 0
 	for _, a := range attrs {
@@ -311,8 +329,10 @@ func TestVerifC11(t *testing.T) {
 			t.Fatalf("bad behaviour: %v", err)
 		}
 		tid++
-		tx := &bgp.MarshallingOption{AddPath: map[bgp.Family]bgp.BGPAddPathMode{}, ExtendedMessage: b.Cfg.Ext}
-		rx := &bgp.MarshallingOption{AddPath: map[bgp.Family]bgp.BGPAddPathMode{}, ExtendedMessage: b.Cfg.Ext}
+		// the options of fsm.go sendMessageloop; Use2ByteAS is what a packer that budgets for the
+		// 2-octet-AS rewriting needs to know (ignored by the serialisers)
+		tx := &bgp.MarshallingOption{AddPath: map[bgp.Family]bgp.BGPAddPathMode{}, ExtendedMessage: b.Cfg.Ext, Use2ByteAS: b.Cfg.As2}
+		rx := &bgp.MarshallingOption{AddPath: map[bgp.Family]bgp.BGPAddPathMode{}, ExtendedMessage: b.Cfg.Ext, Use2ByteAS: b.Cfg.As2}
 		for fam, on := range b.Cfg.Ap {
 			f, ok := c11Families[fam]
 			if !ok {
@@ -412,12 +432,14 @@ func TestVerifC11(t *testing.T) {
 				if o.AttrBytes != c.Ab {
 					t.Fatalf("attribute block: requested %d octets, built %d", c.Ab, o.AttrBytes)
 				}
+				su := single.Body.(*bgp.BGPUpdate)
+				c11ForSession(su, b.Cfg.As2)
 				body, err := single.Body.Serialize(tx)
 				if err != nil {
 					t.Fatalf("single-route serialise: %v", err)
 				}
 				o.Single = bgp.BGP_HEADER_LENGTH + len(body)
-				o.Dig = c11Digest(pattrs)
+				o.Dig = c11Digest(su.PathAttributes)
 				o.Nhs = c11NhString(nhs)
 				lastAnn[lk] = p
 				paths = append(paths, p)
@@ -441,6 +463,12 @@ func TestVerifC11(t *testing.T) {
 		}()
 		for i, m := range msgs {
 			rec := c11Msg{Ev: "Msg", I: i + 1, Wd: [][]any{}, Ann: []c11Grp{}}
+			if pb, err := m.Body.Serialize(tx); err == nil {
+				rec.Plen = bgp.BGP_HEADER_LENGTH + len(pb)
+			}
+			if u, ok := m.Body.(*bgp.BGPUpdate); ok {
+				c11ForSession(u, b.Cfg.As2)
+			}
 			body, err := m.Body.Serialize(tx)
 			if err != nil {
 				rec.Err = "body: " + err.Error()
